@@ -38,6 +38,14 @@ CLAIMED = {
          "Ownership discipline on every path incl. error paths; F8 (failed restore leaks) is a listed known finding.", "DESIGN.md §2 C07"),
  "C13": ("static analysis: guard-dominance and flag-aware must-pass-through on Insert4's publish/retry, CAS operand shape rules, finite-domain decision tables of softDelete (per-level CAS outcomes) and NewLevel, search guard rules in findPath, sibling agreement of the tagged-word accessors with types.Sizes in both build configurations (amd64 and !amd64)",
          "Linearizability is NOT decided; decided are the algorithm's local obligations, each a necessary condition with a small-thread counter-example, including the node implementation for other architectures that the baseline never compiles.", "DESIGN.md §2 C13"),
+ "C14": ("static analysis: sibling accounting signatures (counter, sign, level index, Size operand) extracted from Insert4/Segment.Add/helpDelete and compared, who-may-update counter table, field exhaustiveness of Stats.Merge/Apply over types.Struct, owner table for goroutine-local statistics, layout/constant agreement with types.Sizes (33 node types, header, buffers)",
+         "Accounting and layout halves of the property decided structurally; the heap's chain invariants are not.", "DESIGN.md §2 C14"),
+ "C16": ("static analysis: lockset rule (mutex / try-lock ownership of plain fields), must-precede ordering in FlushSession, guard-dominance on the atomic add's own result in Release/Acquire, ordered-destruction guard in doCleanup",
+         "Necessary conditions of barrier safety decided on every path; the interleaving argument itself is not.", "DESIGN.md §2 C16"),
+ "C17": ("static analysis: lost-wakeup shape rule (try-lock hand-off must re-examine the queue after dropping the flag, and loop back), cleanup scan shape",
+         "The structural cause of pending sessions at quiescence is decided; liveness over schedules is not.", "DESIGN.md §2 C17"),
+ "C18": ("static analysis: heap reset/initialisation ordering in MergeIterator, pop/advance/re-push pairing, per-level chaining guards and loop bounds in Segment.Add/Assemble, allocator origin",
+         "Structural conditions of lossless, ordered assembly and merging; content equality is not decided.", "DESIGN.md §2 C18"),
  "C01": ("static analysis: finite-domain decision-table extraction of the visibility predicates (SSA interpreter over epoch orderings), guard-dominance on the collector hand-off, freshness/who-may-write analysis of item headers and payloads, must-precede ordering in NewSnapshot",
          "Necessary structural conditions of snapshot isolation decided on every path and call site of the resolved program (SSA + must-facts + VTA call graph). Not a proof of isolation over all schedules.", "DESIGN.md §2 C01"),
 }
